@@ -16,6 +16,13 @@ _table = {}
 _decide_hook = [None]          # front end P installs the path explorer here
 
 
+def _foreign(o):
+    """operands that must get a chance to handle the operation themselves (abstract vectors, arrays)"""
+    if isinstance(o, (T, int, float, Fraction, bool)):
+        return False
+    return hasattr(o, '__array_priority__') or hasattr(o, 'lin')
+
+
 class T:
     __slots__ = ('op', 'args', 'sort', 'data')
 
@@ -27,14 +34,30 @@ class T:
         return id(self)
 
     # ---- arithmetic ----
-    def __add__(self, o): return add(self, lift(o, self))
-    def __radd__(self, o): return add(lift(o, self), self)
-    def __sub__(self, o): return sub(self, lift(o, self))
-    def __rsub__(self, o): return sub(lift(o, self), self)
-    def __mul__(self, o): return mul(self, lift(o, self))
-    def __rmul__(self, o): return mul(lift(o, self), self)
-    def __truediv__(self, o): return div(self, lift(o, self))
-    def __rtruediv__(self, o): return div(lift(o, self), self)
+    def __add__(self, o):
+        if _foreign(o): return NotImplemented
+        return add(self, lift(o, self))
+    def __radd__(self, o):
+        if _foreign(o): return NotImplemented
+        return add(lift(o, self), self)
+    def __sub__(self, o):
+        if _foreign(o): return NotImplemented
+        return sub(self, lift(o, self))
+    def __rsub__(self, o):
+        if _foreign(o): return NotImplemented
+        return sub(lift(o, self), self)
+    def __mul__(self, o):
+        if _foreign(o): return NotImplemented
+        return mul(self, lift(o, self))
+    def __rmul__(self, o):
+        if _foreign(o): return NotImplemented
+        return mul(lift(o, self), self)
+    def __truediv__(self, o):
+        if _foreign(o): return NotImplemented
+        return div(self, lift(o, self))
+    def __rtruediv__(self, o):
+        if _foreign(o): return NotImplemented
+        return div(lift(o, self), self)
     def __neg__(self): return neg(self)
     def __pos__(self): return self
     def __abs__(self): return abs_(self)
@@ -102,6 +125,12 @@ class T:
 
     def is_const(self):
         return self.op == 'const'
+
+    # numpy calls these on object arrays (np.sqrt(arr) -> elem.sqrt())
+    def sqrt(self): return sqrt(self)
+    def exp(self): return exp(self)
+    def log(self): return log(self)
+    def conjugate(self): return self
 
 
 def _mk(op, args, sort, data=None):
@@ -721,6 +750,8 @@ def evaluate(t, env, funcs=None, exact=False):
         elif op == 'neg': v = -a[0]
         elif op == 'div':
             if a[1] == 0:
+                if exact:
+                    raise ZeroDivisionError('exact evaluation')
                 v = float('nan')
             else:
                 v = a[0] / a[1]
